@@ -182,11 +182,15 @@ class Sym:
         """Value term of local variable `var` after executing the function's straight-line body (no return taken)."""
         ctx = Ctx(func, recv)
         env = _Env()
-        for i, p in enumerate(func.params):
-            if i == 0 and func.cls is not None and func.parent is None and not func.is_static and recv is not None:
-                env.set(p, ('self',))
-            else:
-                env.set(p, ('p', p))
+        root = func
+        while root.parent is not None:
+            root = root.parent
+        for fn in self._func_chain(func):
+            for i, p in enumerate(fn.params):
+                if fn is root and i == 0 and root.cls is not None and not root.is_static and recv is not None:
+                    env.set(p, ('self',))
+                else:
+                    env.set(p, ('p', p))
         fr = _Frame(ctx, ('self',) if recv is not None else None, recv[1] if recv else None, 0)
         self._linear = True  # merge environments at every join instead of splitting on returns / raises
         try:
